@@ -758,8 +758,13 @@ class DicomStack(object):
         #Create a numpy array for storing the voxel data
         stack_shape = self.shape
         stack_shape = tuple(list(stack_shape) + ((5 - len(stack_shape)) * [1]))
-        stack_dtype = self._files_info[0][0].nii_img.get_data_dtype()
-        bits_stored = self._files_info[0][0].get_meta('BitsStored', default=16)
+        #The files may differ in data type (e.g. per slice rescaling) and in
+        #the number of bits used, the array must be able to hold all of them
+        file_dtypes = set(file_info[0].nii_img.get_data_dtype()
+                          for file_info in self._files_info)
+        stack_dtype = np.result_type(*file_dtypes)
+        bits_stored = max(file_info[0].get_meta('BitsStored', default=16)
+                          for file_info in self._files_info)
         # This is a hack to keep fslview happy, it does not like unsigned short
         # data. If less than 16 bits are being used for each pixel we default 
         # to signed short.        
